@@ -69,17 +69,45 @@ fn gamma(a: Decimal) -> Decimal {
     }
 }
 
+fn overflow() -> Box<dyn error::Error> {
+    "The result is outside the range of Decimal".into()
+}
+
+fn undefined() -> Box<dyn error::Error> {
+    "The function is not defined for this argument".into()
+}
+
 pub fn eval(expr: Node) -> Result<Decimal, Box<dyn error::Error>> {
     #[cfg(feature = "verif_hooks")]
     crate::verif_hooks::tick();
     use self::Node::*;
     match expr {
         Number(i) => Ok(i),
-        Add(expr1, expr2) => Ok(eval(*expr1)? + eval(*expr2)?),
-        Subtract(expr1, expr2) => Ok(eval(*expr1)? - eval(*expr2)?),
-        Multiply(expr1, expr2) => Ok(eval(*expr1)? * eval(*expr2)?),
-        Divide(expr1, expr2) => Ok(eval(*expr1)? / eval(*expr2)?),
-        Modulo(expr1, expr2) => Ok(eval(*expr1)? % eval(*expr2)?),
+        Add(expr1, expr2) => eval(*expr1)?
+            .checked_add(eval(*expr2)?)
+            .ok_or_else(overflow),
+        Subtract(expr1, expr2) => eval(*expr1)?
+            .checked_sub(eval(*expr2)?)
+            .ok_or_else(overflow),
+        Multiply(expr1, expr2) => eval(*expr1)?
+            .checked_mul(eval(*expr2)?)
+            .ok_or_else(overflow),
+        Divide(expr1, expr2) => {
+            let dividend = eval(*expr1)?;
+            let divisor = eval(*expr2)?;
+            if divisor.is_zero() {
+                return Err("Division by zero".into());
+            }
+            dividend.checked_div(divisor).ok_or_else(overflow)
+        }
+        Modulo(expr1, expr2) => {
+            let dividend = eval(*expr1)?;
+            let divisor = eval(*expr2)?;
+            if divisor.is_zero() {
+                return Err("Division by zero".into());
+            }
+            dividend.checked_rem(divisor).ok_or_else(overflow)
+        }
         Negative(expr1) => Ok(-(eval(*expr1)?)),
         Abs(sub_expr) => Ok(eval(*sub_expr)?.abs()),
         Floor(sub_expr) => Ok(eval(*sub_expr)?.floor()),
@@ -87,20 +115,33 @@ pub fn eval(expr: Node) -> Result<Decimal, Box<dyn error::Error>> {
         Round(sub_expr) => Ok(eval(*sub_expr)?.round()),
         Truncate(sub_expr) => Ok(eval(*sub_expr)?.trunc()),
         Sign(sub_expr) => Ok(eval(*sub_expr)?.signum()),
-        Ln(sub_expr) => Ok(eval(*sub_expr)?.ln()),
-        Lb(sub_expr) => Ok(eval(*sub_expr)?.ln() / Decimal::new(2, 0).ln()),
-        Exp(sub_expr) => Ok(eval(*sub_expr)?.exp()),
-        Exp2(sub_expr) => Ok(Decimal::new(2, 0).powd(eval(*sub_expr)?)),
-        Pow(expr1, expr2) => Ok(eval(*expr1)?.powd(eval(*expr2)?)),
-        Log(expr1, expr2) => Ok(eval(*expr1)?.ln() / eval(*expr2)?.ln()),
+        Ln(sub_expr) => eval(*sub_expr)?.checked_ln().ok_or_else(undefined),
+        Lb(sub_expr) => Ok(eval(*sub_expr)?.checked_ln().ok_or_else(undefined)? / Decimal::new(2, 0).ln()),
+        Exp(sub_expr) => eval(*sub_expr)?.checked_exp().ok_or_else(overflow),
+        Exp2(sub_expr) => Decimal::new(2, 0)
+            .checked_powd(eval(*sub_expr)?)
+            .ok_or_else(overflow),
+        Pow(expr1, expr2) => eval(*expr1)?
+            .checked_powd(eval(*expr2)?)
+            .ok_or_else(overflow),
+        Log(expr1, expr2) => {
+            let numerator = eval(*expr1)?.checked_ln().ok_or_else(undefined)?;
+            let denominator = eval(*expr2)?.checked_ln().ok_or_else(undefined)?;
+            numerator.checked_div(denominator).ok_or_else(undefined)
+        }
         Factorial(sub_expr) => {
             let sub_result = eval(*sub_expr)?;
             if sub_result >= Decimal::ZERO {
                 if (sub_result % Decimal::new(1, 0)) > Decimal::ZERO {
                     Ok(gamma(sub_result + Decimal::new(1, 0)))
                 } else {
+                    // 28! exceeds Decimal::MAX
+                    let n = match sub_result.to_i64() {
+                        Some(n) if n <= 27 => n,
+                        _ => return Err(overflow()),
+                    };
                     let mut factorial_result = Decimal::new(1, 0);
-                    for i in 2..=sub_result.to_i64().unwrap() {
+                    for i in 2..=n {
                         #[cfg(feature = "verif_hooks")]
                         crate::verif_hooks::tick();
                         factorial_result *= Decimal::new(i, 0);
@@ -142,7 +183,18 @@ pub fn eval(expr: Node) -> Result<Decimal, Box<dyn error::Error>> {
                 #[cfg(feature = "verif_hooks")]
                 crate::verif_hooks::tick();
                 x += Decimal::new(1, 0);
-                n = (n.log10() / b.log10()).floor();
+                let next = n
+                    .checked_log10()
+                    .and_then(|log_n| log_n.checked_div(b.checked_log10()?))
+                    .map(|quotient| quotient.floor());
+                n = match next {
+                    Some(next) if next < n => next,
+                    _ => {
+                        return Err(
+                            "The iterated logarithm does not converge for this base.".into()
+                        )
+                    }
+                };
             }
             Ok(x)
         }
@@ -150,7 +202,13 @@ pub fn eval(expr: Node) -> Result<Decimal, Box<dyn error::Error>> {
             Some(result) => Ok(result),
             None => Err("Unable to compute the square root of negative number".into()),
         },
-        Root(n_th_expr, x_expr) => Ok(eval(*x_expr)?.powd(Decimal::new(1, 0) / eval(*n_th_expr)?)),
+        Root(n_th_expr, x_expr) => {
+            let x = eval(*x_expr)?;
+            let exponent = Decimal::new(1, 0)
+                .checked_div(eval(*n_th_expr)?)
+                .ok_or_else(undefined)?;
+            x.checked_powd(exponent).ok_or_else(overflow)
+        }
         Min(args) => {
             if args.len() > 1 {
                 let mut result = Decimal::MAX;
@@ -188,7 +246,7 @@ pub fn eval(expr: Node) -> Result<Decimal, Box<dyn error::Error>> {
             for arg in <Vec<Node> as Clone>::clone(&args).into_iter() {
                 #[cfg(feature = "verif_hooks")]
                 crate::verif_hooks::tick();
-                result += eval(arg)?;
+                result = result.checked_add(eval(arg)?).ok_or_else(overflow)?;
             }
             Ok(result / Decimal::new(args.len() as i64, 0))
         }
@@ -202,7 +260,10 @@ pub fn eval(expr: Node) -> Result<Decimal, Box<dyn error::Error>> {
             results.sort_by(|a, b| a.partial_cmp(b).unwrap());
             let len = results.len();
             if len % 2 == 0 {
-                Ok((results[len >> 1] + results[(len >> 1) - 1]) / Decimal::new(2, 0))
+                Ok(results[len >> 1]
+                    .checked_add(results[(len >> 1) - 1])
+                    .ok_or_else(overflow)?
+                    / Decimal::new(2, 0))
             } else {
                 Ok(results[len >> 1])
             }
